@@ -523,6 +523,12 @@ func reachableArea(context *api.Context, origin b6.Feature, options b6.UntypedCo
 
 // Add a path that connects the two given points, if they're not already directly connected.
 func connect(c *api.Context, a b6.Feature, b b6.Feature) (ingest.Change, error) {
+	if err := requireFeature("connect", a); err != nil {
+		return nil, err
+	}
+	if err := requireFeature("connect", b); err != nil {
+		return nil, err
+	}
 	add := &ingest.AddFeatures{}
 	segments := c.World.Traverse(a.FeatureID())
 	connected := false
